@@ -210,6 +210,12 @@ func VerifyDualProof(proof *DualProof, sourceTxID, targetTxID uint64, sourceAlh,
 
 	} else {
 
+		// when the target Merkle Tree ends exactly at the source transaction,
+		// its last leaf must be the source transaction itself
+		if sourceTxID == proof.TargetTxHeader.BlTxID && proof.TargetBlTxAlh != sourceAlh {
+			return false
+		}
+
 		verifies := VerifyLinearProof(proof.LinearProof, sourceTxID, targetTxID, sourceAlh, targetAlh)
 		if !verifies {
 			return false
